@@ -11,7 +11,7 @@ use nom::character::{is_alphabetic, is_alphanumeric, is_hex_digit};
 use nom::combinator::{map, map_res, opt, peek, recognize, verify};
 use nom::multi::{fold_many0, many0, many1};
 use nom::number::complete::be_u8;
-use nom::sequence::{delimited, preceded, terminated};
+use nom::sequence::{delimited, pair, preceded, terminated};
 use nom::IResult;
 
 #[doc(hidden)]
@@ -325,7 +325,11 @@ fn attr_dn_mrule(i: &[u8]) -> IResult<&[u8], Tag> {
 }
 
 fn dn_mrule(i: &[u8]) -> IResult<&[u8], Tag> {
-    let (i, dn) = opt(terminated(tag_no_case(b":dn"), peek(tag(b":"))))(i)?;
+    // A matching rule must follow the flag here, so ":dn:=" can only be the rule named "dn".
+    let (i, dn) = opt(terminated(
+        tag_no_case(b":dn"),
+        peek(pair(tag(b":"), nom::combinator::not(tag(b"=")))),
+    ))(i)?;
     let (i, mrule) = preceded(tag(b":"), attributetype)(i)?;
     let (i, _) = tag(b":=")(i)?;
     let (i, value) = unescaped(i)?;
